@@ -16,13 +16,24 @@
     does not hold; `rename_onto_existing_breaks` shows the condition is needed: the Go bookkeeping (and the model)
     ends with two columns of one name when it is violated.
 
-  Missing: the per-statement commuting squares (L-read).  They are covered by correspondence (white-box state after every script, including the position maps,
+  * `names_and_positions` — **the reader simulates the reference engine on tables, column names and column positions**:
+    for every script of any length over the vocabulary without RENAME COLUMN / RENAME INDEX / COMMENT ON that the
+    reference engine accepts from the empty schema (with or without referential checks), the MySQL reader model loads
+    it without error and the loaded model has exactly the reference schema's tables in the same order, each with
+    exactly its column names in the same order; one commuting square per statement kind (Proofs/FidelitySteps:
+    CREATE TABLE with its ColumnDef visits through the cursor, DROP TABLE, ADD COLUMN / FIRST / AFTER via
+    `SetColumnPosition` + `swapOrder`, DROP COLUMN, MODIFY COLUMN, keys, indexes, foreign keys), carried by the relation
+    `Rel` (consistent maps, no pending position, every record created in this history, same view).
+
+  Missing: the same for types, options, keys, indexes and foreign keys (L-read beyond names), and for RENAME COLUMN (a
+  renamed record is no longer a plain `add` record: recorded region `rename-column`).  They are covered by correspondence (white-box state after every script, including the position maps,
   plus `invCheck` on the Go state) and by the executable predicate (dump → grammar → reference engine) on every case.
 -/
 import SqlizeModel.Impl.Api
 import SqlizeModel.Spec.Scope
 import SqlizeModel.Generated.Facts
 import SqlizeModel.Proofs.ReaderPending
+import SqlizeModel.Proofs.FidelityMain
 
 namespace Sqlize.C05
 open Sqlize Sqlize.Spec
@@ -80,6 +91,26 @@ theorem rename_onto_existing_breaks :
     ∃ m, ReaderMysql.run {} [.createTable "t" 0 [{ name := "a", typ := "int" }, { name := "b", typ := "int" }] [],
                              .renameColumn "t" "a" "b"] = .ok m ∧
       (m.tables.map (fun t => t.cols.map (·.name))) = [["b", "b"]] := ⟨_, by rfl, by rfl⟩
+
+/-- the reader model simulates the reference engine on tables, column names and column positions -/
+theorem names_and_positions (rc : Bool) (ss : List Stmt) (db : DB) (hs : ss.all Stmt.colSafe = true)
+    (he : execAll rc [] ss = some db) :
+    ∃ m, ReaderMysql.run {} ss = .ok m ∧ colView m = specView db ∧ m.Inv ∧ m.NoPending :=
+  ReaderMysql.fidelity rc ss db hs he
+
+-- non-vacuity: a two-table script with positional adds interleaved across tables, a drop and a modify
+def exScript : List Stmt :=
+  [.createTable "t" 0 [{ name := "a", typ := "int(11)" }, { name := "b", typ := "int(11)" }] ["a"],
+   .createTable "u" 0 [{ name := "x", typ := "int(11)" }] [],
+   .addColumn "t" { name := "c", typ := "text" } (.after "a"),
+   .addColumn "u" { name := "y", typ := "text" } .first,
+   .addColumn "t" { name := "z", typ := "text" } .first,
+   .dropColumn "t" "b",
+   .modifyColumn "t" { name := "c", typ := "longtext" },
+   .createIndex "t" "i" ["c"] false ""]
+example : exScript.all Stmt.colSafe = true := by decide
+example : (execAll true [] exScript).map specView = some [("t", ["z", "a", "c"]), ("u", ["y", "x"])] := by decide
+example : (ReaderMysql.run {} exScript).toOption.map colView = some [("t", ["z", "a", "c"]), ("u", ["y", "x"])] := by rfl
 
 /-- regenerated fact: in every `Parser*` function the parse call and its `return err` precede the first edit -/
 theorem parse_before_edit : ∀ p ∈ Facts.parseBeforeEdit, p.2 = true := by decide
